@@ -1,5 +1,6 @@
 import SygmaModel.Drv.Util
 import SygmaModel.Model.C07
+import SygmaModel.Model.C11
 namespace Sygma.Drv.C07
 open Sygma.C07
 
@@ -43,6 +44,16 @@ def parseEv (s : String) : Option (Ev String) :=
     | [f, t] => do pure (Ev.start (← peerOf f) (some (← t.toNat?)))
     | _ => none
   | _ => none
+
+/-- ready senders and `T` (one more tick of the InitiatePeriod ticker) -/
+def parseArrs (s : String) : Option (List (Arr String)) :=
+  (items s ",").mapM fun t => if t = "T" then some Arr.tick else (peerOf t).map Arr.ready
+
+/-- events of `retry2`: the messages of `wait` plus `r<from>` (ready) -/
+def parseEv2 (s : String) : Option (Sum (Ev String) String) :=
+  match s.toList with
+  | 'r' :: r => (peerOf (String.ofList r)).map Sum.inr
+  | _ => (parseEv s).map Sum.inl
 
 def showRes : Res → String
   | .ok => "ok" | .fail => "fail" | .badStart => "other"
@@ -116,12 +127,15 @@ def handle (op : String) (args : List String) (impl : String) : Option Verdict :
     let some sid := fromHex sid | return bad
     let some holders := peers holders | return bad
     let some excluded := peers excluded | return bad
-    let some arrivals := peers arrivals | return bad
+    let some arrs := parseArrs arrivals | return bad
+    let arrivals := readiesOf arrs
+    let ticks := arrs.any (· == Arr.tick)
     let cfg : ICfg String := ⟨self, holders, t, excluded⟩
     let wf := decide (self ∈ holders) && decide (self ∉ excluded)
-    let (m, tag) := match initiate (keyOf sid (keyTab sid (self :: arrivals))) cfg arrivals with
-      | some (n, S) => (s!"n={n};start={toks S};run={toks S};init=1", "announced")
-      | none => (s!"n={arrivals.length};start=none;run=none;init=1", "never-ready")
+    let inits := if ticks then "re" else "1"
+    let (m, tag) := match initiateT (keyOf sid (keyTab sid (self :: arrivals))) cfg arrs with
+      | some (n, S) => (s!"n={n};start={toks S};run={toks S};init={inits}", "announced")
+      | none => (s!"n={arrs.length};start=none;run=none;init={inits}", "never-ready")
     -- property on the implementation's output: whatever subset was announced / started satisfies the C07 clause
     let ok := match field impl "start", field impl "run" with
       | some st, some rn =>
@@ -130,7 +144,49 @@ def handle (op : String) (args : List String) (impl : String) : Option Verdict :
           | some S => (!wf || decide (SubsetOk cfg arrivals S)) && rn == st
           | none => false
       | _, _ => false
-    return ⟨m, ok, s!"initiate:{tag}:wf={wf}:excl={!excluded.isEmpty}:arr={sizeTag arrivals.length}"⟩
+    return ⟨m, ok, s!"initiate:{tag}:wf={wf}:excl={!excluded.isEmpty}:ticks={ticks}:arr={sizeTag arrs.length}"⟩
+  | "retry2", [self, t, sid, ps, claimant, evs] => some <| Id.run do
+    let some self := peerOf self | return bad
+    let some t := t.toNat? | return bad
+    let some sid := fromHex sid | return bad
+    let some ps := peers ps | return bad
+    let some claimant := (if claimant = "-" then some none else (peerOf claimant).map some) | return bad
+    let some evs := (items evs ";").mapM parseEv2 | return bad
+    let key := keyOf sid (keyTab sid (self :: ps ++ claimant.toList))
+    match staticCoordinator key ps with
+    | none => return ⟨"selfcoord", impl == "selfcoord", "retry2:selfcoord"⟩
+    | some c =>
+      if c = self then return ⟨"selfcoord", impl == "selfcoord", "retry2:selfcoord"⟩
+      let cands := Sygma.C11.nextCandidates ps [c]
+      let sel := toks (sortDesc key cands)
+      let elected := Sygma.C11.bullyElectedListed key self cands claimant
+      let fails := evs.any fun e => match e with | .inl (.fail _) => true | _ => false
+      if elected = self then
+        -- coordinates the second attempt: ready messages are collected, fail messages are read by a watcher that knows
+        -- no coordinator and are all ignored
+        let readies := evs.filterMap fun e => match e with | .inr p => some p | _ => none
+        let cfg : ICfg String := ⟨self, ps, t, [c]⟩
+        let (m, tag) := match initiate key cfg readies with
+          | some (_, S) => (s!"mode=c;sel={sel};r=-;start={toks S};run=c:{toks S};res=ok", "announced")
+          | none => (s!"mode=c;sel={sel};r=-;start=none;run=-;res=ok", "never-ready")
+        let ok := match field impl "start", field impl "res" with
+          | some st, some res =>
+            res == "ok" && (st == "none" || match peers st with
+              | some S => !decide (self ∈ ps) || decide (SubsetOk cfg readies S)
+              | none => false)
+          | _, _ => false
+        return ⟨m, ok, s!"retry2:coordinates:{tag}:fails={fails}"⟩
+      else
+        let tr := evs.filterMap fun e => match e with | .inl e => some e | _ => none
+        let st := runWait2 (some elected) none tr
+        let m := s!"mode=w;sel={sel};r={toks st.readies};start=none;run={joinOr (st.runs.map fun n => "w:p" ++ toString n) "/"};res={showRes st.res}"
+        let ok := match field impl "r", field impl "run", (field impl "res").bind parseRes with
+          | some r, some rn, some res =>
+            match peers r, (items rn "/").mapM (fun x => if x.startsWith "w:p" then (x.drop 3).toString.toNat? else none) with
+            | some rs, some runs => decide (ObeysOnly elected tr rs runs res)
+            | _, _ => false
+          | _, _, _ => false
+        return ⟨m, ok, s!"retry2:follows:res={showRes st.res}:ran={!st.runs.isEmpty}:fails={fails}"⟩
   | "wait", [self, sid, ps, evs] => some <| Id.run do
     let some self := peerOf self | return bad
     let some sid := fromHex sid | return bad
